@@ -19,6 +19,7 @@ package motion
 import (
 	"errors"
 	"reflect"
+	"sync/atomic"
 	"time"
 
 	"github.com/TheCacophonyProject/go-cptv/cptvframe"
@@ -92,9 +93,9 @@ type MotionProcessor struct {
 	constantRecording bool
 	constantRecorder  recorder.Recorder
 	crFrames          int
-	CurrentFrame      uint32
+	CurrentFrame      uint32 // read by other goroutines: only access with sync/atomic
 	snapshotRecorder  recorder.Recorder
-	StartSnapshot     bool
+	startSnapshot     uint32 // set by RequestSnapshot from other goroutines: only access with sync/atomic
 	SnapshotRecording bool
 	snapshotFrames    int
 }
@@ -117,21 +118,23 @@ func (mp *MotionProcessor) Process(rawFrame []byte) error {
 		mp.stopConstantRecorder()
 		return err
 	}
-	mp.CurrentFrame += 1
+	atomic.AddUint32(&mp.CurrentFrame, 1)
 	mp.process(frame)
 	mp.processConstantRecorder(frame)
 	mp.processSnapshot(frame)
 	return nil
 }
 
+// RequestSnapshot asks for a test recording to be started with the next frame.
+// It can be called from any goroutine.
+func (mp *MotionProcessor) RequestSnapshot() {
+	atomic.StoreUint32(&mp.startSnapshot, 1)
+}
+
 func (mp *MotionProcessor) processSnapshot(frame *cptvframe.Frame) {
-	if mp.StartSnapshot && mp.SnapshotRecording {
-		// A test recording is already in progress, it serves this request too.
-		mp.StartSnapshot = false
-	}
-	if mp.StartSnapshot {
+	// A request made while a test recording is in progress is served by that recording.
+	if atomic.CompareAndSwapUint32(&mp.startSnapshot, 1, 0) && !mp.SnapshotRecording {
 		mp.log.Printf("making a snapshot")
-		mp.StartSnapshot = false
 		if err := mp.snapshotRecorder.StartRecording(mp.motionDetector.background, 0); err != nil {
 			mp.log.Printf("error with starting constant recorder: %v", err)
 			return
@@ -232,7 +235,7 @@ func (mp *MotionProcessor) ProcessFrame(srcFrame *cptvframe.Frame) {
 }
 
 func (mp *MotionProcessor) GetRecentFrame() (uint32, *cptvframe.Frame) {
-	return mp.CurrentFrame, mp.frameLoop.CopyRecent()
+	return atomic.LoadUint32(&mp.CurrentFrame), mp.frameLoop.CopyRecent()
 }
 
 func (mp *MotionProcessor) canStartWriting() error {
